@@ -3,6 +3,7 @@ import Ivg.Gen.Tie.Code.DecAux
 import Ivg.Gen.Tie.Code.DecNumbers
 import Ivg.Gen.Tie.Code.DecColors
 import Ivg.Gen.Tie.Code.Color
+import Ivg.Gen.Tie.Code.Transform
 import Ivg.Gen.Code.P_decode
 import Ivg.Model.Decoder
 /-!
@@ -71,14 +72,6 @@ def colorTo (c : ivg_Color) : Color := (colorTo? c).getD ⟨.rgba, rgbaTo c.data
 tolerant
 @[simp] theorem colorTo_colorOf (c : Color) : colorTo (colorOf c) = c := by
   simp [colorTo]
-
-/-- the model viewBox of a Go `ivg.ViewBox` -/
-def vbTo (v : ivg_ViewBox) : ViewBox F32 := ⟨v.MinX, v.MinY, v.MaxX, v.MaxY⟩
-
-tolerant
-@[simp] theorem vbTo_vbOf (v : ViewBox F32) : vbTo (vbOf v) = v := rfl
-tolerant
-@[simp] theorem vbOf_vbTo (v : ivg_ViewBox) : vbOf (vbTo v) = v := rfl
 
 /-- the delivered calls so far -/
 abbrev CallLog := List (Call F32)
